@@ -147,7 +147,7 @@ func buildAttack(s Scen, t *chaingen.Tree, ts *terms, v0, h *chaingen.Node) *att
 		return k
 	}
 	switch s.Attack {
-	case "honest":
+	case "honest", "cut-conn":
 		a.noBan = true
 	case "honest-fork":
 		// a valid chain that is not the honest peer's: B serves its own valid fork
